@@ -324,3 +324,22 @@ def nest(rng, g, S, name, inner_bind=0.0, select_inner=False):
     new_nodes.insert(min(pos, len(new_nodes)), gn)
     g["nodes"] = new_nodes
     return g
+
+
+def via_renames(rng, g, p=0.3):
+    """Marks some function nodes as derived by with_inputs from a function written with OTHER parameter names (a permutation of
+    the current names, or fresh ones), the original node object having been used (touched) first or not.  The program's meaning
+    is unchanged: only the way the node object came to be differs."""
+    for n in g["nodes"]:
+        if n["kind"] == "graph":
+            via_renames(rng, n["graph"], p)
+        elif n["kind"] == "func" and n["inputs"] and rng.random() < p:
+            cur = list(n["inputs"])
+            if len(cur) >= 2 and rng.random() < 0.6:
+                orig = cur[:]
+                while orig == cur:
+                    rng.shuffle(orig)
+            else:
+                orig = [f"p{i}_{n['name']}" if rng.random() < 0.7 else c for i, c in enumerate(cur)]
+            n["via_rename"] = {"orig": orig, "touch": rng.random() < 0.6}
+    return g
